@@ -193,3 +193,63 @@ Proof.
   - intros e He. unfold entry_end. rewrite He.
     destruct (denial_rung_bound m d lease) as [v|]; cbn in Ho; [lia|tauto].
 Qed.
+
+(* ------------------------------------------------------------------ *)
+(** * The replies dns64 relays: A-basis (RFC 6147 5.1.6) and PTR (5.3.1) *)
+
+(* Every relayed record keeps the TTL the answer it was copied from showed: for
+   a cached answer that is the whole seconds left of ITS entry (so it is served
+   inside that entry's lifetime and never rounded up), for a fresh answer the
+   upstream TTL: no TTL is invented.  The only TTL dns64 writes itself is the
+   PTR translation's CNAME (the constant ptrSynthTTL = 600 s, derived from
+   configuration, not from a piece).  Every consulted answer -- the gating AAAA
+   answer included -- bounds the request tree, so whatever is admitted under
+   the tree's bound ends with each of them. *)
+Lemma dns64_relayed_inherits_l recs consulted now :
+  (forall i p, nth_error recs i = Some p ->
+     exists x, nth_error (dns64_relay_ttls recs now) i = Some x
+       /\ match p with
+          | PHit e => now < entry_end e ->
+                      0 <= x /\ x * second <= entry_end e - now /\ entry_end e - now < (x + 1) * second
+          | PFresh t _ => x = t
+          end)
+  /\ length (dns64_relay_ttls recs now) = length recs
+  /\ dns64_basis_reply recs now = dns64_relay_ttls recs now
+  /\ dns64_ptr_reply recs now = 600 :: dns64_relay_ttls recs now
+  /\ (forall p d, In p consulted -> piece_fold p = Some d -> ole (dns64_bound None consulted) d)
+  /\ (forall e, In (PHit e) consulted -> ole (dns64_bound None consulted) (entry_end e))
+  /\ (forall a p d, e_cut a = dns64_bound None consulted -> In p consulted -> piece_fold p = Some d ->
+        entry_end a <= d).
+Proof.
+  repeat split.
+  - intros i p Hp. unfold dns64_relay_ttls. rewrite nth_error_map, Hp. cbn.
+    eexists. split; [reflexivity|]. destruct p as [t l|e]; cbn; [reflexivity|].
+    intros Hl. assert (Hs : serve e now = Some (shown_ttl e now)).
+    { unfold serve. rewrite remaining_eq. destruct (Z.leb_spec (entry_end e - now) 0); [lia|reflexivity]. }
+    pose proof (shown_ttl_le_remaining_l e now _ Hs) as H. rewrite remaining_eq in H. lia.
+  - apply map_length.
+  - intros p d Hin Hf. exact (dns64_bound_le None consulted p d Hin Hf).
+  - intros e Hin. rewrite <- bound_entry_eq. exact (dns64_bound_le None consulted (PHit e) _ Hin eq_refl).
+  - intros a p d Ha Hin Hf. pose proof (dns64_bound_le None consulted p d Hin Hf) as Ho.
+    unfold entry_end. rewrite Ha. destruct (dns64_bound None consulted) as [v|]; cbn in Ho; [lia|tauto].
+Qed.
+
+(* Computed witness (finding dns64-abasis-gate): the A-basis reply is NOT inside
+   the lifetime of the cached AAAA answer that gated it.  AAAA NODATA admitted
+   at 0 for 5 s, the A NODATA (SOA 3600 s) admitted at 2 s; asked at 4 s: the
+   reply relays the SOA with TTL 3598 while the gate has 1 s left.  The tree's
+   bound (5 s) does carry the gate's end, the records relayed do not. *)
+Definition basis_gate : entry := mk_entry 1 0 (5 * second) None false.
+Definition basis_a : entry := mk_entry 2 (2 * second) (3600 * second) None false.
+Lemma dns64_basis_outlives_gate :
+  let now := 4 * second in
+  now < entry_end basis_gate /\ now < entry_end basis_a
+  /\ dns64_basis_reply [PHit basis_a] now = [3598]
+  /\ 3598 * second > remaining basis_gate now
+  /\ dns64_bound None [PHit basis_gate; PHit basis_a] = Some (entry_end basis_gate).
+Proof. vm_compute. repeat split; reflexivity. Qed.
+
+Example dns64_relayed_example :
+  dns64_ptr_reply [PHit basis_a; PFresh 30 (Some (9 * second))] (4 * second) = [600; 3598; 30]
+  /\ dns64_bound None [PHit basis_a; PFresh 30 (Some (9 * second))] = Some (9 * second).
+Proof. vm_compute. split; reflexivity. Qed.
